@@ -240,9 +240,10 @@ Fixpoint value_eqv (a b : value) {struct a} : Prop :=
   end.
 
 (* ------------------------------------------------------------------ Tree as seen by the drivers *)
-(* iteration order of a Tree built by successive `set`: ascending keys, a later `set` on an
-   equal key replaces the value (the tree keeps the first key object).  Insertion into a sorted
-   association list with the modelled key comparison; None = a key comparison raised. *)
+(* iteration order of a Tree built by successive `set`: DESCENDING keys (Tree_Set / Tree_Get go
+   left when cmp(node key, key) < 0, and iteration starts at the leftmost node); a later `set`
+   on an equal key replaces the value (the tree keeps the first key object).  Insertion into a
+   sorted association list with the modelled key comparison; None = a key comparison raised. *)
 Fixpoint assoc_set (kvs : list (value * value)) (k v : value) : option (list (value * value)) :=
   match kvs with
   | [] => Some [(k, v)]
@@ -251,7 +252,7 @@ Fixpoint assoc_set (kvs : list (value * value)) (k v : value) : option (list (va
       | None => None
       | Some c =>
           if c =? 0 then Some ((k', v) :: r)
-          else if c <? 0 then Some ((k, v) :: kvs)
+          else if 0 <? c then Some ((k, v) :: kvs)
           else match assoc_set r k v with Some r' => Some ((k', v') :: r') | None => None end
       end
   end.
@@ -269,8 +270,8 @@ Fixpoint spec_assoc_set (kvs : list (value * value)) (k v : value) : list (value
   | (k', v') :: r =>
       match value_ord k k' with
       | Eq => (k', v) :: r
-      | Lt => (k, v) :: kvs
-      | Gt => (k', v') :: spec_assoc_set r k v
+      | Gt => (k, v) :: kvs
+      | Lt => (k', v') :: spec_assoc_set r k v
       end
   end.
 Definition spec_tree_of_sets (ins : list (value * value)) : list (value * value) :=
@@ -284,7 +285,7 @@ Fixpoint assoc_get (kvs : list (value * value)) (k : value) : option (option val
   | (k', v') :: r =>
       match value_cmp k k' with
       | None => None
-      | Some c => if c =? 0 then Some (Some v') else if c <? 0 then Some None else assoc_get r k
+      | Some c => if c =? 0 then Some (Some v') else if 0 <? c then Some None else assoc_get r k
       end
   end.
 
